@@ -18,7 +18,7 @@ FIXED = [{'mode': 'rr'}, {'mode': 'serial'}, {'mode': 'fast'}]
 
 
 def budget(tier):
-    return dict(shards=16, examples=14 if tier == 'quick' else 250)
+    return dict(shards=16, examples=24 if tier == 'quick' else 250)
 
 
 @st.composite
